@@ -376,7 +376,17 @@ func (a *attacker) move(name string) {
 		a.send(qnet.Call, s, o, 6, append(rc.Encode(rc.T(rc.Dyn), rc.DynV{T: rc.T(rc.String), V: "level"}), a.randomDyn()...))
 		a.send(qnet.Call, s, o, 6, append(rc.Encode(rc.T(rc.Dyn), rc.DynV{T: rc.T(rc.Uint32), V: r.Uint32()}), a.randomDyn()...))
 		a.send(qnet.Call, s, o, 7, nil)
-		a.logf("property/setProperty with random dynamic values on %d/%d", s, o)
+		// dynamic values whose signature is malformed in the ways a parser is most likely to half-accept
+		// (struct definitions with more / fewer names than member types, unbalanced brackets, empty names)
+		for _, sig := range []string{"(i)<P,a,b>", "()<P,a>", "(ii)<P,a>", "(i)<,a>", "[(i)<P,a,b>]", "{s(i)<P,a,b>}", "{(i)<P,a,b>i}", "(i)<P<Q>,a,b,c>", "((i)<P,a,b>s)", "[", "{i", "(i)<P"} {
+			var pl bytes.Buffer
+			binary.Write(&pl, binary.LittleEndian, uint32(len(sig)))
+			pl.WriteString(sig)
+			pl.Write([]byte{1, 0, 0, 0, 2, 0, 0, 0, 3, 0, 0, 0})
+			a.send(qnet.Call, s, o, 5, pl.Bytes())
+			a.send(qnet.Call, s, o, 6, append(rc.Encode(rc.T(rc.Dyn), rc.DynV{T: rc.T(rc.String), V: "level"}), pl.Bytes()...))
+		}
+		a.logf("property/setProperty with random dynamic values and malformed struct signatures on %d/%d", s, o)
 		a.drain(30 * time.Millisecond)
 	case "mutated-directory-call":
 		names := []string{"service", "services", "registerService", "serviceReady", "updateServiceInfo", "machineId", "_socketOfService"}
